@@ -41,10 +41,27 @@ def k_shim(fun, t, v, *a, **kw):
     return _k(fun, t, v, *a, **kw)
 
 
+IVP = {"max_err": 0.0, "span_ok": True, "n": 0}
+
+
 def ivp_shim(fun, span, y0, *a, **kw):
+    sol = _ivp(fun, span, y0, *a, **kw)
     if STATE["on"]:
         LOG.append(["K", "ivp", float(abs(span[1] - span[0]))])
-    return _ivp(fun, span, y0, *a, **kw)
+        # contract of the local ODE solve: entered with t_span = (0, +-|half step|) of the requested sign, returns y(t_end) of the
+        # linear system y' = A y (A assembled column by column from the right-hand side, reference = dense expm)
+        half = STATE["edt"] / 2
+        want = -half.imag if np.iscomplex(half) else float(np.real(half))
+        IVP["span_ok"] = IVP["span_ok"] and span[0] == 0 and np.isclose(span[1], want)
+        y0 = np.asarray(y0)
+        if y0.size <= 96:
+            A = np.stack([np.asarray(fun(0.0, e)) for e in np.eye(y0.size, dtype=complex)], axis=1)
+            ref = sla.expm(A * (span[1] - span[0])) @ y0
+            y = np.asarray(sol.y)
+            y = y[:, -1] if y.ndim == 2 else y
+            IVP["max_err"] = max(IVP["max_err"], float(np.linalg.norm(y - ref) / max(np.linalg.norm(ref), 1e-300)))
+            IVP["n"] += 1
+    return sol
 
 
 def svd_shim(*a, **kw):
@@ -94,13 +111,14 @@ for k in range(int(P.get("n", 8))):
     scheme = str(rs.choice(["tdvp_ps", "tdvp_ps", "tdvp_ps2"]))
     solver = str(rs.choice(["krylov", "krylov", "RK45"]))
     imag = bool(rs.rand() < 0.3)
-    dt = float(rs.choice([0.125, 0.25, 0.0625]))
+    dt = float(rs.choice([0.125, 0.25, 0.0625])) * (1.0 if (imag or rs.rand() < 0.5) else -1.0)     # backward propagation too
     a = st.copy()
     set_cfg(a, scheme, m_max=max(m, 4), ivp_solver=solver)
     to_right0, q0 = bool(a.to_right), int(a.qnidx)
     edt = -1j * dt if imag else dt
     # the non-krylov branch converts an imaginary step to a real one
     STATE["edt"] = edt
+    IVP.update(max_err=0.0, span_ok=True, n=0)
     del LOG[:]
     exc = None
     try:
@@ -113,6 +131,6 @@ for k in range(int(P.get("n", 8))):
         STATE["on"] = False
     first = next((i for i, x in enumerate(LOG) if x[0] == "K"), len(LOG))
     runs.append({"scheme": scheme, "solver": solver, "imag": imag, "n": n, "to_right": to_right0, "q": q0, "dt": dt,
-                 "m": m, "obs": [list(x) for x in LOG[first:]], "exc": exc,
+                 "m": m, "obs": [list(x) for x in LOG[first:]], "exc": exc, "ivp_max_err": IVP["max_err"], "ivp_span_ok": bool(IVP["span_ok"]), "ivp_calls_checked": IVP["n"],
                  "end_to_right": bool(out.to_right) if exc is None else None, "end_q": int(out.qnidx) if exc is None else None})
 emit({"runs": runs})
